@@ -107,6 +107,21 @@ static void level_run_cases(const char* dir, uint64_t seed, int big) { char tag[
 static void create_close_only_case(const char* dir, uint64_t seed) { char tag[120]; tgen_t gp = {3, 5, 0, -1, -1, -1, 0, 1}; table_t* t = tbl_generate(&R, &gp); t->rg_rows[0] = 0; for (int c = 0; c < t->ncols; c++) { tchunk_t* k = &t->rg[0][c]; k->nlevels = 0; k->nvals = 0; k->nbatches = 0; k->ba_heap_n = 0; }
     snprintf(tag, sizeof tag, "create-close-only seed=%llu cols=%d", (unsigned long long)seed, t->ncols); run_case(t, dir, 500000, tag); run_case(t, dir, 500001, tag); /* once through each open path of the round-trip check */ v_count("create_close_only_tables"); tbl_free(t); }
 
+/* an application that ignores a refused write_batch (a column type the page writer has no encoder for: INT96) and closes normally: if close
+ * then reports OK the file must still be a structurally valid Parquet file (C05 validates the kept file with the independent reader,
+ * structure only: what "the table that was written" is after a refused batch is not defined) and must re-open here */
+static void refused_batch_case(const char* dir, uint64_t seed) { char path[512], tag[160]; for (int variant = 0; variant < 3; variant++) {
+    tgen_t gp = {variant == 0 ? 1 : 3, 9, 0, -1, -1, -1, 0, 1}; table_t* t = tbl_generate(&R, &gp); int ic = (int)vrng_below(&R, (uint64_t)t->ncols); tcol_t* col = &t->cols[ic]; col->type = CARQUET_PHYSICAL_INT96; col->type_length = 0;
+    for (int g = 0; g < t->nrg; g++) { tchunk_t* k = &t->rg[g][ic]; free(k->fixed); k->fixed = (uint8_t*)v_exact((size_t)k->nvals * 12 + 1); vrng_bytes(&R, k->fixed, (size_t)k->nvals * 12); k->ba_heap_n = 0; }
+    snprintf(path, sizeof path, "%s/c.parquet", dir); unlink(path); twrite_result_t wr; TBL_KEEP_GOING = 1; int created = tbl_write_path(&R, t, path, &wr); TBL_KEEP_GOING = 0; v_case(seed * 31 + (uint64_t)variant); v_count("refused_batch_histories");
+    snprintf(tag, sizeof tag, "structure-only refused-batch seed=%llu variant=%d first_bad=%s/%d", (unsigned long long)seed, variant, wr.first_bad_call ? wr.first_bad_call : "none", wr.first_bad_status);
+    if (created && wr.close_called && wr.close_status == CARQUET_OK) { v_count(wr.all_ok ? "int96_tables_written_completely" : "refused_batch_then_close_ok");
+        carquet_error_t err = CARQUET_ERROR_INIT; carquet_reader_t* rd = carquet_reader_open(path, NULL, &err); if (!rd) v_viol("refused-batch:close-ok-but-file-does-not-open", "%s: %s", tag, err.message); else carquet_reader_close(rd);
+        if (KEEP) { char dst[600], cmd[1400]; snprintf(dst, sizeof dst, "%s/case_%lld", KEEP, (long long)KEPT++); snprintf(cmd, sizeof cmd, "%s.tdmp", dst); tbl_dump(t, cmd); snprintf(cmd, sizeof cmd, "%s.parquet", dst); rename(path, cmd);
+            snprintf(cmd, sizeof cmd, "%s.meta", dst); FILE* f = fopen(cmd, "w"); if (f) { fprintf(f, "codec=%d page_size=%lld nrg=%d ncols=%d tag=%s\n", t->codec, (long long)t->page_size, t->nrg, t->ncols, tag); fclose(f); } } }
+    else v_count("refused_batch_then_close_refused");
+    unlink(path); tbl_free(t); } }
+
 static void codec_boundary_cases(const char* dir, uint64_t seed, int count) { char tag[160];
     static const int64_t RS[] = {1, 3, 4, 8, 11, 12, 13, 14, 15, 16, 17, 59, 60, 61, 254, 255, 256, 269, 270, 271, 524, 525, 526, 779, 780, 781, 1034, 1035, 2047, 2048, 2049, 4095, 4096, 32767, 32768, 32769, 65534, 65535, 65536, 65537};
     static const int64_t LS[] = {4, 5, 6, 7, 8, 11, 12, 14, 15, 16, 18, 19, 20, 33, 59, 60, 61, 63, 64, 65, 66, 67, 68, 69, 128, 129, 130, 131, 132, 273, 274, 275, 528, 1000, 4096, 70000};
@@ -177,7 +192,7 @@ int main(int argc, char** argv) {
         { static const int NC[] = {9, 10, 11, 12, 13, 14, 15, 16, 17, 18, 31, 32, 33, 63, 64, 65, 127, 128, 129}; static const int NG[] = {5, 6, 7, 8, 13, 14, 15, 16, 17, 31, 32, 33};
           for (int q = 0; q < (int)(sizeof NC / sizeof *NC) + (int)(sizeof NG / sizeof *NG); q++) { int wide = q < (int)(sizeof NC / sizeof *NC); tgen_t g2 = {8, 12, 0, -1, -1, -1, 0, wide ? 1 + (int)vrng_below(&R, 2) : NG[q - (int)(sizeof NC / sizeof *NC)], wide ? NC[q] : 1 + (int)vrng_below(&R, 3)};
               table_t* t = tbl_generate(&R, &g2); snprintf(tag, sizeof tag, "shape seed=%llu cols=%d row_groups=%d", (unsigned long long)seed, t->ncols, t->nrg); run_case(t, dir, 100000 + q, tag); v_count(wide ? "shape_sweep_wide_tables" : "shape_sweep_many_row_groups"); tbl_free(t); } }
-        codec_boundary_cases(dir, seed, scale >= 2 ? 600 : 120); lookalike_cases(dir, seed, scale >= 2 ? 60 : 12); level_run_cases(dir, seed, scale >= 2); create_close_only_case(dir, seed);
+        codec_boundary_cases(dir, seed, scale >= 2 ? 600 : 120); lookalike_cases(dir, seed, scale >= 2 ? 60 : 12); level_run_cases(dir, seed, scale >= 2); create_close_only_case(dir, seed); refused_batch_case(dir, seed);
         v_sample("gen: %lld random tables: 1..8 columns over 7 physical types x REQUIRED/OPTIONAL, 1..4 row groups, rows 0..400 (some up to 60000), 5 codecs, page_size {1,64,1024,65536,default}, batch partitions {single,1-row,small,random incl. 0-row,halving}, interleaved columns", (long long)cases);
     } else if (!strcmp(mode, "enum")) {
         /* all (null pattern x batch partition) pairs for one OPTIONAL column of n rows; all batch partitions for a boolean column */
